@@ -13,6 +13,17 @@
   extraction    the solution is exactly the decisions with value true whose variable is a solvable
   assertions    decide_assertions walks *all* negative assertions each round with value false; propagate runs both
                 assertion passes before the watch loop
+
+Added after the second and third seeding rounds:
+  watch-list    (rules/wl.py) slot / literal agreement of the two-watched-literal lists: start_watching, cursor, next_node, next, update
+  restart       every undo inside run_sat goes to the run's own starting level (shared with C14); D15 known finding: the conflict-driven
+                backjump can go below it
+  new-solvables what run_sat hands to the encoder (shared with C09): the run's solvable first, then every selected-but-unencoded
+                solvable found on the whole trail
+  soft-solvables-registered (shared with C15) a soft requirement's solvable is registered with its package's at-most-one tracker
+                before it is installed (D11)
+  encoding      + consumer totality: every path through on_dependencies_available reaches the three queueing loops (or the
+                Unknown-dependencies exclusion)
 """
 from common import *
 import q, enc, mech
